@@ -71,7 +71,7 @@ Definition normpath (p : str) : str :=
   end.
 
 (* ---- what the kernel does with a path: symbolic links -------------------------------------------------
-   `links` maps the PHYSICAL absolute path of every symbolic link (to a directory) of the fixture to its
+   `links` maps the PHYSICAL absolute path of every symbolic link (to a directory or to a file) of the fixture to its
    os.path.realpath. kresolve walks an absolute path the way the kernel (and os.path.realpath) does: component
    by component over the physical path so far, ".." leaving the physical parent, a component that is a symbolic
    link replaced by where it points. It is what open()/os.access() see, and what os.getcwd() answers after
